@@ -439,3 +439,97 @@ Example C19_tr_drawfix_runs :
     = Some (enc_log [TRecord; TPos 1 0; TRoom (-1); TPrint [99; 10]%N 1 0 []; TCtx 0; TCommit]).
 Proof. vm_compute. reflexivity. Qed.
 Local Close Scope Z_scope.
+
+(* ================= text direction and prompts; two windows after an ex command that wrote to the terminal =================
+   (coq/DrawDirDefs.v DrawDirProps.v DrawSplitDefs.v DrawSplitProps.v; seeds C19i / C19j) *)
+From NV Require Import DrawDirDefs DrawDirProps DrawSplitDefs DrawSplitProps.
+
+(* the text direction option `td` is state of the editor; led_prompt() edits its line under td = +2 and puts the old value back
+   on EVERY way out: the prompt answered with Enter, cancelled with ESC or ^C, or cut short by the end of the input *)
+Theorem C19_prompt_preserves_td : forall pref post (s : ed), e_td (fst (led_prompt pref post s)) = e_td s.
+Proof. exact prompt_preserves_td. Qed.
+Print Assumptions C19_prompt_preserves_td.
+Theorem C19_prompts_preserve_td : forall n (s : ed), e_td (prompts n s) = e_td s.
+Proof. exact prompts_preserve_td. Qed.
+Print Assumptions C19_prompts_preserve_td.
+(* the variant that returns early for the cancelled prompt, before the option is put back, leaves td = +2 after every
+   cancelled prompt (every line is then laid out left-to-right) *)
+Theorem C19_prompt_early_return_forces_ltr : forall pref post (s : ed),
+  snd (led_prompt_early pref post s) = None -> e_td (fst (led_prompt_early pref post s)) = 2%Z.
+Proof. exact prompt_early_cancelled_forces_ltr. Qed.
+Print Assumptions C19_prompt_early_return_forces_ltr.
+Theorem C19_prompt_early_return_loses_td :
+  exists s, e_td (fst (led_prompt_early [] [] s)) <> e_td s /\ e_td (fst (led_prompt [] [] s)) = e_td s.
+Proof. exact prompt_early_loses_td. Qed.
+Print Assumptions C19_prompt_early_return_loses_td.
+
+(* the row image is a function of (td, xleft, xcols, line): after ANY number of prompts, answered or cancelled, the partial
+   redraws (vi_drawupdate, vi_drawfix) run under the td the rows on the screen were drawn with and leave the full repaint *)
+Theorem C19_update_after_prompts_is_repaint : forall (G : Type) (blank : list (option G)) n (s : ed) xleft xcols
+    (lines : nat -> rline G) h otop xtop,
+  drawupdate _ blank (row_img G (e_td (prompts n s)) xleft xcols lines) h otop xtop
+             (win _ (row_img G (e_td s) xleft xcols lines) otop h)
+  = win _ (row_img G (e_td s) xleft xcols lines) xtop h.
+Proof. exact update_after_prompts_is_repaint. Qed.
+Print Assumptions C19_update_after_prompts_is_repaint.
+Theorem C19_fix_after_prompts_is_repaint : forall (G : Type) (blank : list (option G)) k (s : ed) xleft xcols
+    (old new : nat -> rline G) W h r1 e n,
+  1 <= h -> r1 <= e ->
+  (forall i, i < r1 -> new i = old i) ->
+  (forall j, new (r1 + n + j) = old (e + j)) ->
+  fix_pre W h r1 e n ->
+  drawfix _ blank (row_img G (e_td (prompts k s)) xleft xcols new) W h (Z.of_nat r1) (Z.of_nat e - 1) (Z.of_nat n)
+          (win _ (row_img G (e_td s) xleft xcols old) W h)
+  = win _ (row_img G (e_td s) xleft xcols new) W h.
+Proof. exact fix_after_prompts_is_repaint. Qed.
+Print Assumptions C19_fix_after_prompts_is_repaint.
+
+(* the terminal cursor (vi_pos of the line's base direction under td) is on the cell led_render's off[] gives the character at
+   that visual position -- either base direction, every td, every xleft; lines of single-width characters at distinct positions *)
+Theorem C19_cursor_cell_holds_char : forall (G : Type) td xleft xcols (l : rline G) p g,
+  (0 <= xcols)%Z -> simple_chars G (l_chars G l) -> In (p, 1%Z, g) (l_chars G l) -> (xleft <= p < xleft + xcols)%Z ->
+  nth (Z.to_nat (vi_pos (line_dir G td l) p xleft xcols)) (render_row G td xleft xcols l) None = Some g.
+Proof. exact cursor_cell_holds_char. Qed.
+Print Assumptions C19_cursor_cell_holds_char.
+(* non-vacuity: a line whose first letter makes it right-to-left, 6 columns: under the default td it is drawn from the right
+   edge with the cursor of its first character in column 5; under td = +2 from the left edge, cursor in column 0 *)
+Example C19_nonvacuous_rtl :
+  let l := mkLine N true (Some (-1)%Z) [(0, 1, 97%N); (1, 1, 98%N)]%Z in
+  render_row N 0 0 6 l = [None; None; None; None; Some 98%N; Some 97%N] /\
+  render_row N 2 0 6 l = [Some 97%N; Some 98%N; None; None; None; None] /\
+  vi_pos (line_dir N 0 l) 0 0 6 = 5%Z /\ vi_pos (line_dir N 2 l) 0 0 6 = 0%Z.
+Proof. exact rtl_row_depends_on_td. Qed.
+
+(* two windows (^Ws).  An ex command that writes to the terminal itself (`:w !cmd`, `:!cmd`, more than one printed line)
+   ends at "[enter to continue]" with the scroll region reset to the whole screen and ANY rows on the screen (junk).  The
+   repaint of the tail of vi() (mod = VC_ALL: the other window, then the active one) leaves: each window a true window of
+   its buffer at its own top, both cursor lines inside their windows, the scroll region the active window's *)
+Theorem C19_split_continue_repaint : forall (R : Type) (fa fo : nat -> R) msga msgo junk (s : sstate R),
+  4 <= s_rows R s -> s_cur R s <= 1 -> length junk = s_rows R s ->
+  (0 <= v_top (s_act R s))%Z -> (0 <= v_len (s_act R s))%Z -> (0 <= v_top (s_oth R s))%Z -> (0 <= v_len (s_oth R s))%Z ->
+  split_inv R fa fo (tail_after_wait R true fa fo msga msgo junk s).
+Proof. exact split_continue_repaint. Qed.
+Print Assumptions C19_split_continue_repaint.
+(* without the repaint (mod = 0) the invariant fails for EVERY screen: the region stays the whole screen *)
+Theorem C19_split_continue_needs_repaint : forall (R : Type) (fa fo : nat -> R) msga msgo junk (s : sstate R),
+  4 <= s_rows R s -> s_cur R s <= 1 ->
+  ~ split_inv R fa fo (tail_after_wait R false fa fo msga msgo junk s).
+Proof. exact split_continue_no_repaint. Qed.
+Print Assumptions C19_split_continue_needs_repaint.
+(* which command lines get it: all but exactly ":w"; `:w !cmd` does, and would not under "starts with :w" *)
+Theorem C19_colon_repaints_all_but_w : forall ln, colon_repaints ln = false <-> ln = COLON_W.
+Proof. exact colon_repaints_all_but_w. Qed.
+Print Assumptions C19_colon_repaints_all_but_w.
+Theorem C19_write_to_command_repaints : forall ln, write_to_command ln = true ->
+  colon_repaints ln = true /\ colon_repaints_prefix ln = false.
+Proof. exact write_to_command_repaints. Qed.
+Print Assumptions C19_write_to_command_repaints.
+(* non-vacuity: 8 rows, upper window active (top 2, cursor line 9: vi_wfix moves the top to 8), lower at top 0; the screen full of 99s *)
+Example C19_nonvacuous_split :
+  s_scr nat (tail_after_wait nat true (fun i => 100 + i) (fun i => 200 + i) 1 2 (repeat 99 8)
+               (mkS nat 8 0 (mkView 2 9 30) (mkView 0 1 30) (0, 7) [])) = [108; 109; 110; 1; 200; 201; 202; 2] /\
+  s_region nat (tail_after_wait nat true (fun i => 100 + i) (fun i => 200 + i) 1 2 (repeat 99 8)
+               (mkS nat 8 0 (mkView 2 9 30) (mkView 0 1 30) (0, 7) [])) = (0, 3) /\
+  s_region nat (tail_after_wait nat false (fun i => 100 + i) (fun i => 200 + i) 1 2 (repeat 99 8)
+               (mkS nat 8 0 (mkView 2 9 30) (mkView 0 1 30) (0, 7) [])) = (0, 7).
+Proof. vm_compute. repeat split; reflexivity. Qed.
